@@ -512,6 +512,19 @@ class Stream(AbstractStream):
                 stream._imol = self._imol.get_phase(phase)
                 stream._thermo = thermo
 
+    def _update_phase_streams(self):
+        # Keep the per-phase streams of a MultiStream on its current data
+        if hasattr(self, '_streams'):
+            imol = self._imol
+            streams = self._streams
+            for phase in tuple(streams):
+                if phase in imol._phases:
+                    stream = streams[phase]
+                    stream._imol = imol.get_phase(phase)
+                    stream._thermal_condition = self._thermal_condition
+                else:
+                    del streams[phase]
+
     def get_CF(self, key: str, basis : Optional[str]=None, units: Optional[str]=None):
         """
         Returns the life-cycle characterization factor on a kg basis given the
@@ -1630,6 +1643,7 @@ class Stream(AbstractStream):
             self._imol.data = other._imol.data
         if phase and self._imol.data.ndim == 1:
             self._imol._phase = other._imol._phase
+        self._update_phase_streams()
             
     def unlink(self):
         """
@@ -1672,6 +1686,7 @@ class Stream(AbstractStream):
         imol.data = imol.data.copy()
         self._thermal_condition = self._thermal_condition.copy()
         self.reset_cache()
+        self._update_phase_streams()
         
     def copy_like(self, other):
         """
